@@ -280,7 +280,7 @@ def selftest_generic(pid, trace_invs, corrupt, expect):
     """Record a small real trace, corrupt it with `corrupt(rows)`, and require the invariant `expect` (and Continuity for a deleted line)."""
     d = core.scratch('verif-st-')
     tr = os.path.join(d, 't.ndjson')
-    core.run_harness(['vise-random', tr, '6', '6', '6', 'L'], env={'VERIF_SEED': '11'})
+    core.run_harness(['vise-random', tr, '6', '6', '6', 'LP'], env={'VERIF_SEED': '11'})
     rows = core.read_ndjson(tr)
     corrupt(rows)
     for j in range(len(rows) - 1, 1, -1):      # delete one mid-request iteration
